@@ -15,6 +15,27 @@ use domain::rdata::dnssec::Timestamp;
 use std::cmp::Ordering;
 use std::panic::{catch_unwind, AssertUnwindSafe};
 
+/// The signature time `x` as the new API hands it out: the `Timestamp`
+/// returned by `domain::new::rdata::Rrsig::expiration()` (the type itself is
+/// not exported, so it is only ever reached through the accessor).
+macro_rules! new_ts {
+    ($x:expr) => {{
+        let x: u32 = $x;
+        domain::new::rdata::Rrsig {
+            rtype: domain::new::base::RType::A,
+            algorithm: domain::new::rdata::SecAlg::RSA_SHA1,
+            labels: 1,
+            ttl: domain::new::base::TTL::from(3600),
+            expiration: domain::new::base::Serial::new(x),
+            inception: domain::new::base::Serial::new(x.wrapping_sub(86400)),
+            keytag: 4711.into(),
+            signer: domain::new::base::name::Name::ROOT,
+            signature: &[],
+        }
+        .expiration()
+    }};
+}
+
 pub fn ord_str(o: Option<Ordering>) -> &'static str {
     match o {
         Some(Ordering::Less) => "LT",
@@ -616,6 +637,7 @@ pub fn window_sites(lo: u32, hi: u32, x: u32) -> serde_json::Value {
         "newrange": yes_no((NewSerial::new(lo)..NewSerial::new(hi)).contains(&NewSerial::new(x))),
         "range": yes_no((Serial(lo)..Serial(hi)).contains(&Serial(x))),
         "tsrange": yes_no((Timestamp::from(lo)..Timestamp::from(hi)).contains(&Timestamp::from(x))),
+        "newtsrange": yes_no((new_ts!(lo)..new_ts!(hi)).contains(&new_ts!(x))),
     })
 }
 
@@ -834,4 +856,172 @@ pub fn rrsig_times_routes(exp: u32, inc: u32) -> Result<(u32, u32), String> {
     let r = pflat.into_rrsig(vec![0u8; 8]).map_err(|_| "into_rrsig".to_string())?;
     seen.push(("proto_flatten_into", times((r.expiration(), r.inception()))));
     all_same("RRSIG times", &seen)
+}
+
+//------------ the new API's signature time ------------------------------------
+
+/// `partial_cmp` of the new API's signature time.  Its comparison operators
+/// and `==` must agree with it, `into_int` must return the field, and the
+/// conversion into the old API's `Timestamp` must carry the value (then the
+/// old type's comparison is the same question again).
+pub fn lib_newts_cmp(a: u32, b: u32) -> String {
+    let (ta, tb) = (new_ts!(a), new_ts!(b));
+    let r = ord_str(ta.partial_cmp(&tb));
+    let ops_ok = (ta < tb) == (r == "LT")
+        && (ta > tb) == (r == "GT")
+        && (ta <= tb) == (r == "LT" || r == "EQ")
+        && (ta >= tb) == (r == "GT" || r == "EQ")
+        && (ta == tb) == (r == "EQ");
+    if !ops_ok {
+        return "OPS_INCONSISTENT".into();
+    }
+    if ta.into_int() != a || tb.into_int() != b {
+        return format!("into_int gives {} {} for {a} {b}", ta.into_int(), tb.into_int());
+    }
+    if format!("{ta}") != format!("{a}") {
+        return format!("Display writes {ta} for {a}");
+    }
+    let (oa, ob): (Timestamp, Timestamp) = (ta.into(), tb.into());
+    if oa.into_int() != a || ob.into_int() != b {
+        return format!("conversion gives {} {} for {a} {b}", oa.into_int(), ob.into_int());
+    }
+    r.into()
+}
+
+/// `to_system_time` of the new API's signature time (cf. `lib_place`).
+pub fn lib_newts_place(ts: u32, reference: u64) -> Option<u64> {
+    use std::time::{Duration, UNIX_EPOCH};
+    catch_unwind(AssertUnwindSafe(|| {
+        new_ts!(ts)
+            .to_system_time(UNIX_EPOCH + Duration::from_secs(reference))
+            .duration_since(UNIX_EPOCH)
+            .ok()
+            .map(|d| d.as_secs())
+    }))
+    .ok()
+    .flatten()
+}
+
+//------------ freshness: the server cookies middleware -------------------------
+
+#[path = "cookies.rs"]
+pub mod cookies;
+
+pub const PAST: u32 = 3600;
+pub const FUTURE: u32 = 300;
+
+pub struct FreshRig {
+    rt: tokio::runtime::Runtime,
+    svc: cookies::RecSvc,
+    plain: cookies::Mw,
+    denying: cookies::Mw,
+    id: u16,
+}
+
+const FRESH_SECRET: &str = "s1";
+const FRESH_CC: &str = "c1";
+
+impl FreshRig {
+    pub fn new() -> Self {
+        let svc = cookies::RecSvc::new();
+        let secret = cookies::secret_of(FRESH_SECRET);
+        FreshRig {
+            rt: cookies::runtime(),
+            plain: cookies::new_mw(&svc, secret),
+            denying: cookies::new_mw(&svc, secret)
+                .with_denied_ips(vec![cookies::ip_of("a"), cookies::ip_of("c")]),
+            svc,
+            id: 1,
+        }
+    }
+
+    /// Does the clock interposition work and is the harness's hash the
+    /// library's?
+    pub fn selftest(&self) -> bool {
+        cookies::clock_selftest() && cookies::hash_selftest()
+    }
+
+    fn call(&mut self, denying: bool, now: u32, spec: &cookies::CallSpec) -> serde_json::Value {
+        self.id = self.id.wrapping_add(1);
+        let secret = cookies::secret_of(FRESH_SECRET);
+        let mw = if denying { &self.denying } else { &self.plain };
+        cookies::do_call(&self.rt, mw, &self.svc, 0, &secret, now, self.id, spec).obs
+    }
+
+    /// Every site that decides "the cookie timestamp `ts` is fresh at clock
+    /// value `now`", put to the real `CookiesMiddlewareSvc` with a correctly
+    /// hashed server cookie and the system clock set to `now`:
+    ///  * mwprefetch: a cookie prefetch request (QDCOUNT 0, TCP, IPv6 client):
+    ///    NOERROR = accept, BADCOOKIE = reject;
+    ///  * mwdenied: a UDP query from a deny-listed IPv4 address: passed on to
+    ///    the service = accept, BADCOOKIE = reject;
+    ///  * optcookie: `base::opt::Cookie::check_server_hash` with the window as
+    ///    a `Range<Serial>` applied to the timestamp the library hands over.
+    /// Guard: the same cookie with one hash bit flipped must be refused
+    /// whatever the times, otherwise the timestamp is not what decides.
+    pub fn sites(&mut self, now: u32, ts: u32) -> serde_json::Value {
+        use serde_json::json;
+        let secret = cookies::secret_of(FRESH_SECRET);
+        let cc = cookies::cc_of(FRESH_CC);
+        let mut out = serde_json::Map::new();
+        for (site, ipn, udp, qd, denying) in
+            [("mwprefetch", "c", false, 0u16, false), ("mwdenied", "a", true, 1u16, true)]
+        {
+            let ip = cookies::ip_of(ipn);
+            let h = cookies::term_hash(&secret, &cc, 1, [0; 3], ts, ip);
+            let mut decisions = vec![];
+            for flip in [false, true] {
+                let mut hh = h;
+                if flip {
+                    hh[7] ^= 1;
+                }
+                let spec = cookies::CallSpec {
+                    udp,
+                    ip,
+                    qd,
+                    opt: "ok".into(),
+                    cookies: vec![cookies::std_cookie(&cc, 1, [0; 3], ts, &hh)],
+                };
+                let obs = self.call(denying, now, &spec);
+                let d = match (obs["act"].as_str(), obs["rcode"].as_str()) {
+                    (Some("reply"), Some("NOERROR")) if qd == 0 => "accept".to_string(),
+                    (Some("pass"), _) if qd != 0 => "accept".to_string(),
+                    (Some("reply"), Some("BADCOOKIE")) => "reject".to_string(),
+                    _ => format!("unexpected: {obs}"),
+                };
+                decisions.push(d);
+            }
+            let d = if decisions[1] != "reject" {
+                format!("harness: a cookie with a wrong hash gives {}", decisions[1])
+            } else {
+                decisions[0].clone()
+            };
+            out.insert(site.into(), json!(d));
+        }
+        // old-API option type: the library parses the cookie, hands its
+        // timestamp to the caller's test, then checks the hash
+        let ip = cookies::ip_of("b");
+        let h = cookies::term_hash(&secret, &cc, 1, [0; 3], ts, ip);
+        let bytes = cookies::std_cookie(&cc, 1, [0; 3], ts, &h);
+        let mut p = Parser::from_ref(bytes.as_slice());
+        let d = match domain::base::opt::Cookie::parse(&mut p) {
+            Ok(c) => {
+                let mut seen: Option<u32> = None;
+                let lo = Serial(now.wrapping_sub(PAST));
+                let hi = Serial(now.wrapping_add(FUTURE + 1));
+                let ok = c.check_server_hash(ip, &secret, |t| {
+                    seen = Some(t.into_int());
+                    (lo..hi).contains(&t)
+                });
+                if seen != Some(ts) {
+                    format!("timestamp handed over: {seen:?}, cookie carries {ts}")
+                } else {
+                    yes_no(ok).to_string()
+                }
+            }
+            Err(e) => format!("harness: cookie does not parse: {e}"),
+        };
+        out.insert("optcookie".into(), json!(d));
+        serde_json::Value::Object(out)
+    }
 }
